@@ -46,7 +46,8 @@ struct Exec {
     void *mainFake = nullptr;
     std::vector<int> prefix;
     std::vector<Point> points;
-    bool aborted = false, violated = false, pruned = false;
+    bool aborted = false, violated = false, pruned = false, abandoned = false;
+    std::string abandonReason;
     std::string vmsg;
     bool spuriousUsed = false;
     uint64_t steps = 0;
@@ -270,6 +271,16 @@ struct Dfs {
         Exec &e = *E;            // still valid: points copied below before the next run
         std::vector<Point> pts = e.points;
         st.points += pts.size();
+        if (e.abandoned && !e.violated) {
+            ++st.abandoned;
+            bool seen = false;
+            for (auto &x : st.abandonedSamples) if (x.first == e.abandonReason) seen = true;
+            if (!seen && st.abandonedSamples.size() < 16) {
+                std::vector<int> c;
+                for (auto &p : pts) c.push_back(p.chosen);
+                st.abandonedSamples.push_back({e.abandonReason, c});
+            }
+        }
         if (e.violated) {
             st.violated = true; st.violation = e.vmsg;
             st.schedule.clear();
@@ -300,6 +311,11 @@ struct Dfs {
 void violation(const std::string &msg) {
     Exec &e = *E;
     if (!e.violated) { e.violated = true; e.vmsg = msg; }
+    if (e.running >= 0) switchToMain();   // never resumed
+}
+void abandon(const std::string &reason) {
+    Exec &e = *E;
+    if (!e.violated && !e.abandoned) { e.abandoned = true; e.aborted = true; e.abandonReason = reason; }
     if (e.running >= 0) switchToMain();   // never resumed
 }
 int self() { return E ? E->running : -1; }
